@@ -34,7 +34,7 @@ EffectOfPriority(p) ==
       [] p \in {19, 20, 27, 30} -> 3
       [] p = 9 -> 5
       [] p \in ((5..38) \ {9, 15, 19, 20, 25, 27, 30, 37}) -> 6
-      [] OTHER -> 0          \* not in the table
+      [] OTHER -> 0          \* not in the table (41), or a sort order that names no priority: 42 no colon, 43 not a number, 44 empty
 TimetabledNoService == {2, 3, 4}    \* no midday / overnight / weekend service
 
 (* alert id tokens whose text starts with "lmm:alert" / "lmm:planned_work" *)
